@@ -10,6 +10,34 @@ p = os.path.join(root, "DESIGN.md")
 head = open(p, encoding="utf-8").read().split(MARK)[0].rstrip() + "\n\n" + MARK + "\n\n"
 out = [head, "-" * 99, "\n\n## 10. As built, per property (one section per check; written when the check was built)\n\n"]
 ids = [json.loads(l)["id"] for l in open(os.path.join(root, "properties.jsonl"))]
+# summary table from the committed evidence, known findings and seeded detection results
+out.append("### 10.0 Summary (generated from evidence/*.json, known_findings.json, seeded/*/detect.json)\n\n")
+out.append("| Property | pinned theorems (all discharged) | axioms | correspondence cases (last run, tier) | disagreements | open known findings | seeded changes caught / run |\n|---|---|---|---|---|---|---|\n")
+_k = json.load(open(os.path.join(root, "known_findings.json")))
+for pid in ids:
+    ef = os.path.join(root, "evidence", pid + ".json")
+    if not os.path.exists(ef):
+        out.append("| %s | (no evidence) | | | | | |\n" % pid)
+        continue
+    e = json.load(open(ef)); c = e["coverage"]
+    ax = [t for t in c.get("trusted_base", []) if t.startswith("axioms reported by Print Assumptions")]
+    ax = ax[-1].split(":", 1)[1].strip() if ax else "?"
+    kf = [f["id"] for f in _k["findings"] if f["property"] == pid]
+    caught = run = 0
+    for d in glob.glob(os.path.join(root, "seeded", "*")):
+        try:
+            m = json.load(open(os.path.join(d, "meta.json")))
+            if m.get("retired"):
+                continue
+            r = json.load(open(os.path.join(d, "detect.json")))["results"]
+        except Exception:
+            continue
+        for x in r:
+            if x["property"] == pid:
+                run += 1
+                caught += 1 if x["caught"] else 0
+    out.append("| %s | %d / %d | %s | %d (%s) | %d | %s | %d / %d |\n" % (pid, c["discharged"], c["obligations"], ax[:80], c.get("traces_validated_against_impl", 0), e["tier"], c.get("correspondence_disagreements", 0), ", ".join(kf) or "none", caught, run))
+out.append("\n")
 for pid in ids:
     f = os.path.join(root, "notes", pid + ".md")
     if os.path.exists(f):
